@@ -89,6 +89,7 @@ type Frame struct {
 	isDefer  bool
 	locals   map[string][]Val // source name -> pointer values (cells / heap cells), allocation order
 	measures map[*ssa.BasicBlock]Term
+	loopMark map[*ssa.BasicBlock]int // number of events on the path when the loop head was entered
 	entryView *HeapView
 	eventIdx  int
 	afterSite ssa.Instruction
@@ -117,6 +118,13 @@ type State struct {
 	gen     int
 	genW    Term
 	havocAllSeen bool
+	localCells   []*localCell // heap-allocated locals of the frames on the stack
+}
+
+type localCell struct {
+	p        *Ptr
+	t        types.Type
+	captured bool
 }
 
 func (s *State) top() *Frame { return s.frames[len(s.frames)-1] }
@@ -130,6 +138,10 @@ func (s *State) clone() *State {
 	n.cells = append([]Val(nil), s.cells...)
 	n.ctypes = append([]types.Type(nil), s.ctypes...)
 	n.events = append([]Event(nil), s.events...)
+	for _, lc := range s.localCells {
+		c := *lc
+		n.localCells = append(n.localCells, &c)
+	}
 	n.frames = make([]*Frame, len(s.frames))
 	for i, f := range s.frames {
 		nf := *f
